@@ -131,7 +131,7 @@ func c13Check(c c13Case) (sig, msg string) {
 	if r1.Panic != "" || r1.Err != "" {
 		return "error", r1.Panic + r1.Err
 	}
-	if r1.OK || r1.HTTPStatus != 302 || r1.Location == "" {
+	if r1.OK || !world.IsRedirect(r1.HTTPStatus) || r1.Location == "" {
 		return "no-redirect", fmt.Sprintf("code=%v http=%d", r1.Code, r1.HTTPStatus)
 	}
 	hasNoCache := func(r world.Result) bool {
@@ -228,7 +228,7 @@ func c13Check(c c13Case) (sig, msg string) {
 		host = "app.test"
 	}
 	wantLoc := scheme + "://" + host + c.Target
-	if r2.HTTPStatus != 302 || r2.Location != wantLoc {
+	if !world.IsRedirect(r2.HTTPStatus) || r2.Location != wantLoc {
 		return "post-login-location-differs", fmt.Sprintf("Location %q (http %d), first requested %q", r2.Location, r2.HTTPStatus, wantLoc)
 	}
 	if !hasNoCache(r2) {
